@@ -202,6 +202,14 @@ func (w *World) fullFuncName(pkg, key string) string {
 		}
 		if !strings.Contains(recv, ".") || strings.HasPrefix(recv, "[") {
 			recv = pkg + "." + recv
+		} else if !strings.Contains(recv, "/") {
+			// pkgname.Type: resolve the package name through the imports
+			i := strings.Index(recv, ".")
+			if tp := w.typesPkg(pkg); tp != nil {
+				if ip := w.importByName(tp, recv[:i]); ip != nil {
+					recv = ip.Path() + recv[i:]
+				}
+			}
 		}
 		return "(" + star + recv + ")" + rest
 	}
